@@ -17,12 +17,14 @@ META = {
                  '(1,2,3,4,8) as solver variables (realised when the writer formats them: solver-enumerated finite domain), '
                  'in first, middle or last position, through all five writers and their readers; reactions with role counts 0..2 '
                  'and a wedged molecule in a solver-chosen role; title and one metadata item; '
-                 'two stereo seeds with hand-set 2-D coordinates through every format',
+                 'eight stereo seeds (incl. meso triols, an allene) with hand-set 2-D coordinates through every format with the '
+                 'default and the cis/trans-calculating reader; the bond block in every order (solver permutation); files of '
+                 '1..3 records: access by index / seek / slice = sequential reading, a record with a broken counts line at a '
+                 'solver-chosen position is skipped',
         'thorough': 'role counts 0..3, two variable atoms at a time',
     },
-    'outside_claim': ['record splitting, skipping of damaged records, random access by index, metadata escaping over all '
-                      'printable text, files written by other programs: text plumbing with nothing symbolic left - not '
-                      'claimed by this technique', 'the wedge <-> sign relation for all real coordinates is decided under C12 '
+    'outside_claim': ['metadata escaping over all printable text; damaged records other than a broken counts line; files '
+                      'of other programs beyond a permuted bond block', 'the wedge <-> sign relation for all real coordinates is decided under C12 '
                       '(wedge_roundtrip, cis_trans_2d_smiles); here coordinates pass through text as concrete values',
                       'explicit hydrogens on stereocentres (the recorded writer/reader asymmetry)'],
     'stubs': [],
@@ -36,7 +38,7 @@ class KeepS(io.StringIO):
         super().close()
 
 
-def write_read(fmt, obj):
+def write_read(fmt, obj, calc_cis_trans=True):
     from chython.files import SDFRead, SDFWrite, ESDFWrite, RDFRead, RDFWrite, ERDFWrite, MRVRead, MRVWrite
     W, R = {'sdf': (SDFWrite, SDFRead), 'esdf': (ESDFWrite, SDFRead), 'rdf': (RDFWrite, RDFRead),
             'erdf': (ERDFWrite, RDFRead), 'mrv': (MRVWrite, MRVRead)}[fmt]
@@ -47,8 +49,14 @@ def write_read(fmt, obj):
     data = getattr(f, 'data', None)
     if data is None:
         data = f.getvalue()
+    return read_text(fmt, data, calc_cis_trans), data
+
+
+def read_text(fmt, data, calc_cis_trans=True):
+    from chython.files import SDFRead, RDFRead, MRVRead
+    R = {'sdf': SDFRead, 'esdf': SDFRead, 'rdf': RDFRead, 'erdf': RDFRead, 'mrv': MRVRead}[fmt]
     src = io.BytesIO(data.encode()) if fmt == 'mrv' else io.StringIO(data)
-    return list(R(src, calc_cis_trans=True)), data
+    return list(R(src, calc_cis_trans=True) if calc_cis_trans else R(src))
 
 
 def fields(m):
@@ -156,10 +164,28 @@ STEREO = {
 }
 
 
+def zigzag(n):
+    return {i + 1: (0.7145 * i, 0.4125 * (i % 2)) for i in range(n)}
+
+
+# pentane-2,3,4-triols: C3 is a stereocentre only through the configuration of C2 and C4 (meso forms), is none in the chiral
+# form, and is left undefined in the last one. Atoms: C1 C2 O3 C4 O5 C6 C7 O8
+_T = {1: (0.0, 0.0), 2: (0.7145, 0.4125), 4: (1.4289, 0.0), 6: (2.1434, 0.4125), 7: (2.8579, 0.0), 3: (0.7145, 1.2375),
+      5: (1.4289, -0.825), 8: (2.1434, 1.2375)}
+STEREO.update({'C[C@H](O)[C@H](O)[C@@H](C)O': _T, 'C[C@H](O)[C@@H](O)[C@@H](C)O': _T, 'C[C@H](O)[C@H](O)[C@H](C)O': _T,
+               'C[C@H](O)C(O)[C@@H](C)O': _T,
+               # 1,3-disubstituted allene drawn along x
+               'CC=[C@]=C(C)Cl': {1: (-0.65, 1.1), 2: (0.0, 0.0), 3: (1.3, 0.0), 4: (2.6, 0.0), 5: (3.25, 1.1), 6: (3.25, -1.1)}})
+
+
 def h_stereo(V, fmt):
     import chython
     smi = V.choice('seed', sorted(STEREO))
     flip = bool(V.bool('mirror'))
+    default_reader = bool(V.bool('default_reader_options'))
+    if default_reader and ('/' in smi or chr(92) in smi):
+        V.note('cis/trans from coordinates is an option of the reader: not asked with the defaults')
+        return
     m = chython.smiles(smi)
     for n, (x, y) in STEREO[smi].items():
         m.atom(n).x = x
@@ -169,16 +195,120 @@ def h_stereo(V, fmt):
             if a.stereo is not None:
                 a._stereo = not a._stereo
         m.flush_cache()
-    out, data = write_read(fmt, m)
-    info = {'format': fmt, 'seed': smi, 'mirror': flip}
+    out, data = write_read(fmt, m, calc_cis_trans=not default_reader)
+    info = {'format': fmt, 'seed': smi, 'mirror': flip, 'default_reader': default_reader}
     V.prove(len(out) == 1, 'one record', info)
     if len(out) == 1:
         V.prove(str(out[0]) == str(m), 'tetrahedral and cis/trans configuration survive the file (2-D coordinates present)',
                 dict(info, got=str(out[0]), want=str(m)))
+        V.prove(out[0] == m and hash(out[0]) == hash(m), 'the molecule read back equals the one written', info)
     V.observe('len', len(data))
 
 
-HARNESSES = {'record': h_record, 'reaction': h_reaction, 'stereo': h_stereo}
+def h_bond_lines(V, fmt):
+    """the bond block of a record may list the bonds in any order (files of other programs do): same molecule"""
+    import chython
+    smi = V.choice('seed', ['CC=[C@]=C(C)Cl', 'CC=[C@@]=C(C)Cl', 'C[C@H](N)O', 'C[C@H](O)/C=C/F'])
+    m = chython.smiles(smi)
+    key = smi.replace('@@', '@')
+    for n, (x, y) in STEREO[key].items():
+        m.atom(n).x, m.atom(n).y = x, y
+    _, data = write_read(fmt, m)
+    lines = data.split('\n')
+    if fmt == 'sdf':
+        ci = next(i for i, l in enumerate(lines) if l.rstrip().endswith('V2000'))
+        na, nb = int(lines[ci][:3]), int(lines[ci][3:6])
+        lo, hi = ci + 1 + na, ci + 1 + na + nb
+    else:
+        lo = next(i for i, l in enumerate(lines) if 'BEGIN BOND' in l) + 1
+        hi = next(i for i, l in enumerate(lines) if 'END BOND' in l)
+    nb = hi - lo
+    perm = [V.int(f'p{i}', 0, nb - 1) for i in range(nb)]
+    V.distinct(*perm)
+    perm = [int(x) for x in perm]
+    block = [lines[lo + k] for k in perm]
+    if fmt != 'sdf':      # V3000 bond lines carry their own index: renumber in the new order
+        block = ['M  V30 ' + ' '.join([str(i + 1)] + l.split()[3:]) for i, l in enumerate(block)]
+    text = '\n'.join(lines[:lo] + block + lines[hi:])
+    out = read_text(fmt, text)
+    info = {'format': fmt, 'seed': smi, 'order': perm}
+    V.prove(len(out) == 1, 'one record', info)
+    if len(out) == 1:
+        V.prove(str(out[0]) == str(m), 'the order of the bond lines does not change the molecule or its configuration',
+                dict(info, got=str(out[0]), want=str(m)))
+    V.observe('perm', tuple(perm))
+
+
+def h_multi(V, fmt, reactions=False):
+    """files of 1..3 records: random access by index = sequential reading; a damaged record is skipped, the others stay"""
+    import os
+    import re
+    import tempfile
+    import chython
+    from chython.files import SDFRead, SDFWrite, ESDFWrite, RDFRead, RDFWrite, ERDFWrite
+    W, R = {'sdf': (SDFWrite, SDFRead), 'esdf': (ESDFWrite, SDFRead), 'rdf': (RDFWrite, RDFRead), 'erdf': (ERDFWrite, RDFRead)}[fmt]
+    n = int(V.int('records', 1, 3))
+    pool = ['CCO>>CC=O', 'CC(=O)O.CO>>CC(=O)OC', 'CN>>C[NH3+]'] if reactions else ['CCO', 'CC(=O)O', 'CN']
+    objs = [chython.smiles(x) for x in pool[:n]]
+    f = KeepS()
+    w = W(f)
+    for o in objs:
+        w.write(o)
+    w.close()
+    data = getattr(f, 'data', None) or f.getvalue()
+    want = [str(o) for o in objs]
+    mode = V.choice('mode', ['index', 'damaged'])
+    info = {'format': fmt, 'records': n, 'mode': mode, 'reactions': reactions}
+    if mode == 'index':
+        k = int(V.int('index', 0, n - 1))
+        d = tempfile.mkdtemp(prefix='c11_', dir=os.environ.get('VERIF_TMP') or None)
+        cache = None
+        path = os.path.join(d, 'file.' + fmt)
+        try:
+            with open(path, 'w') as fh:
+                fh.write(data)
+            r = R(path, indexable=True)
+            cache = r._cache_path          # the reader keeps its index in the system temp directory
+            V.prove(len(r) == n, 'an indexed file knows how many records it has', dict(info, got=len(r)))
+            V.prove(str(r[k]) == want[k], 'the k-th record by index is the k-th record read sequentially', dict(info, index=k))
+            r.seek(k)
+            V.prove(str(next(r)) == want[k] and r.tell() == k + 1, 'seek(k) then reading gives the k-th record',
+                    dict(info, index=k))
+            V.prove([str(x) for x in r[0:n]] == want, 'a slice gives the records in order', info)
+            r.close()
+        finally:
+            for x in os.listdir(d):
+                os.unlink(os.path.join(d, x))
+            os.rmdir(d)
+            if cache and os.path.isfile(cache):
+                os.unlink(cache)
+    else:
+        bad = int(V.int('damaged', 0, n - 1))
+        if fmt in ('sdf', 'esdf'):
+            head, chunks = '', [c + '$$$$\n' for c in data.split('$$$$\n') if c]
+        else:
+            parts = re.split(r'(?m)^(?=\$[RM]FMT)', data)
+            head, chunks = parts[0], parts[1:]
+        V.prove(len(chunks) == n, 'one chunk per record', info)
+        c = chunks[bad]
+        if reactions and 'V2000' in c:
+            # the reaction's own counts line (a broken component molecule is dropped with ignore=True, by design)
+            ls = c.split('\n')
+            i = next(j for j, l in enumerate(ls) if l.startswith('$RXN')) + 4
+            ls[i] = '  x' + ls[i][3:]
+            c = '\n'.join(ls)
+        elif 'V2000' in c:
+            c = re.sub(r'(?m)^(...)(...)(.*V2000)$', lambda m: '  x' + m.group(2) + m.group(3), c, count=1)
+        else:
+            c = c.replace('M  V30 COUNTS ', 'M  V30 COUNTS x', 1)
+        chunks[bad] = c
+        got = [str(x) for x in R(io.StringIO(head + ''.join(chunks)))]
+        V.prove(got == want[:bad] + want[bad + 1:], 'a damaged record is skipped and the others are read', dict(info, damaged=bad,
+                got=got))
+    V.observe('n', n)
+
+
+HARNESSES = {'multi': h_multi, 'record': h_record, 'reaction': h_reaction, 'stereo': h_stereo, 'bond_lines': h_bond_lines}
 
 
 def finding_key(job, failure):
@@ -193,6 +323,11 @@ def jobs(tier):
         J.append({'harness': 'record', 'params': {'fmt': fmt}, 'budget_s': 900, 'validate_every': 200, 'max_failures': 20,
                   'weight': 500})
         J.append({'harness': 'stereo', 'params': {'fmt': fmt}, 'budget_s': 120, 'max_failures': 10})
+    for fmt in ('sdf', 'esdf', 'rdf', 'erdf'):
+        for rx in ((False, True) if 'rdf' in fmt else (False,)):
+            J.append({'harness': 'multi', 'params': {'fmt': fmt, 'reactions': rx}, 'budget_s': 300, 'max_failures': 10})
+    for fmt in ('sdf', 'esdf'):
+        J.append({'harness': 'bond_lines', 'params': {'fmt': fmt}, 'budget_s': 600, 'validate_every': 100, 'max_failures': 10})
     for fmt in ('rdf', 'erdf', 'mrv'):
         J.append({'harness': 'reaction', 'params': {'fmt': fmt, 'maxn': 3 if T else 2}, 'budget_s': 600, 'validate_every': 10,
                   'max_failures': 20})
